@@ -497,22 +497,15 @@ def plumbFits (c : Cfg) (forceFull : Bool) (imageRegion : Region) : Bool :=
 `output_frame_region`. `oriented` is the already oriented image region. -/
 def compositeRegion (c : Cfg) (oriented : Region) : Region :=
   let fr := (oriented.translate (-c.x0) (-c.y0)).downsample (c.lfLevel * 3)
-  let fr := padLfRegion c fr
-  let fr := padColorRegion c fr
-  let fr := fr.upsample c.upsampling
   if c.normal then fr.intersection ((Region.withSize c.imgW c.imgH).translate (-c.x0) (-c.y0)) else fr
 
 def compositeRegionFits (c : Cfg) (oriented : Region) : Bool :=
   let t := oriented.translate (-c.x0) (-c.y0)
   let d := t.downsample (c.lfLevel * 3)
-  let l := padLfRegion c d
-  let p := padColorRegion c l
-  let u := p.upsample c.upsampling
   let img := (Region.withSize c.imgW c.imgH).translate (-c.x0) (-c.y0)
   inI32 (-c.x0) && inI32 (-c.y0) && oriented.translateFits (-c.x0) (-c.y0) &&
-  t.downsampleFits (c.lfLevel * 3) && padLfRegionFits c d && padColorRegionFits c l &&
-  p.upsampleFits c.upsampling &&
-  (!c.normal || ((Region.withSize c.imgW c.imgH).translateFits (-c.x0) (-c.y0) && u.intersectionFits img))
+  t.downsampleFits (c.lfLevel * 3) &&
+  (!c.normal || ((Region.withSize c.imgW c.imgH).translateFits (-c.x0) (-c.y0) && d.intersectionFits img))
 
 /-! ## `blend()` / `patch()` region computation (`blend.rs:179..403`, `418..548`) -/
 
@@ -561,7 +554,7 @@ def blendGeom (x0 y0 : Int) (fw fh : Nat) (newGrid output : Region)
         (grid.translate (bx0 - x0) (by0 - y0), rel.left, rel.top, rel.width, rel.height)
   { original, clipped,
     baseX := (clipped.left - output.left).natAbs, baseY := (clipped.top - output.top).natAbs,
-    newX := (clipped.left - original.left).natAbs, newY := (clipped.top - original.top).natAbs,
+    newX := (clipped.left - newGrid.left).natAbs, newY := (clipped.top - newGrid.top).natAbs,
     w := clipped.width, h := clipped.height,
     target, subLeft := sl, subTop := st, subW := sw, subH := sh }
 
